@@ -219,7 +219,9 @@ func (g *Generator) generateWithoutSaving(parents []*theTypeInfo, t reflect.Type
 				}
 				return nil, err
 			}
-			refSchemaRef := RefSchemaRef
+			// a reference of its own to the shared schema: NewSchemaRefForValue rewrites the
+			// references it has handed out
+			refSchemaRef := openapi3.NewSchemaRef(RefSchemaRef.Ref, RefSchemaRef.Value)
 			g.SchemaRefs[refSchemaRef]++
 			ref := openapi3.NewSchemaRef(t.Name(), &openapi3.Schema{
 				OneOf: []*openapi3.SchemaRef{
